@@ -347,7 +347,128 @@ def rule_defaults(run):
     run.end()
 
 
-RULES = [rule_wrappers, rule_polarity, rule_reset_set, rule_first_state, rule_defaults]
+def _polarity_helper(f, want_low: bool):
+    """Reset.active_low_signal / active_high_signal evaluated on the two-point domain _active_low in {True, False}:
+    -> {active_low: 'same' | 'inverted' | None}"""
+    res = {}
+    top = [s for s in f.node.body if isinstance(s, ast.If)]
+    if len(top) != 1:
+        return None
+    t = src(top[0].test)
+    if t == "self._active_low":
+        arms = {True: top[0].body, False: top[0].orelse}
+    elif t == "not self._active_low":
+        arms = {False: top[0].body, True: top[0].orelse}
+    else:
+        return None
+    for al, body in arms.items():
+        kinds = set()
+        for r in ast.walk(ast.Module(body=body, type_ignores=[])):
+            if isinstance(r, ast.Return) and r.value is not None:
+                v = r.value
+                if dotted(v) == "self._signal":
+                    kinds.add("same")
+                elif isinstance(v, ast.UnaryOp) and isinstance(v.op, ast.Invert) and dotted(v.operand) == "self._signal":
+                    kinds.add("inverted")
+                elif isinstance(v, ast.Name):
+                    # a helper signal driven by `x.next = ~self._signal` / `x <<= ~self._signal`
+                    drv = [a for a in ast.walk(ast.Module(body=body, type_ignores=[])) if isinstance(a, (ast.Assign, ast.AugAssign)) and v.id in src(a.targets[0] if isinstance(a, ast.Assign) else a.target)
+                           and isinstance(a.value, ast.UnaryOp) and isinstance(a.value.op, ast.Invert) and dotted(a.value.operand) == "self._signal"]
+                    kinds.add("inverted" if drv else "other")
+                else:
+                    kinds.add("other")
+        res[al] = next(iter(kinds)) if len(kinds) == 1 else None
+    return res
+
+
+def rule_combined(run):
+    run.begin(
+        "C04.f",
+        "derived resets: or_reset asserts the new reset iff the parent reset OR the extra condition is asserted, and_reset "
+        "iff both are, for both polarities (truth table over parent x extra x polarity); the polarity helpers invert the "
+        "signal exactly when the stored polarity differs from the requested one; the new Reset carries the same polarity",
+        floor=20,
+    )
+    sc = run.idx.mod(STDCTX)
+    for name, want_low in (("Reset.active_low_signal", True), ("Reset.active_high_signal", False)):
+        f = sc.func(name)
+        got = _polarity_helper(f, want_low)
+        if got is None:
+            raise AnalysisError(f"{name}: polarity split not recognised")
+        for al in (True, False):
+            exp = "same" if al == want_low else "inverted"
+            run.ob(got.get(al) == exp, name, file=sc.rel, line=f.node.lineno, detail=f"stored_active_low={al}", expected=exp, found=str(got.get(al)))
+    for fn, combine in (("or_reset", lambda p, e: p or e), ("and_reset", lambda p, e: p and e)):
+        f = sc.func(f"SequentialContext.{fn}")
+        logics = [g for g in ast.walk(f.node) if isinstance(g, ast.FunctionDef) and g is not f.node and any(isinstance(x, ast.If) and src(x.test) == "active_low" for x in g.body)]
+        if len(logics) != 1:
+            raise AnalysisError(f"{fn}: combining logic with the polarity split not found")
+        split = [x for x in logics[0].body if isinstance(x, ast.If) and src(x.test) == "active_low"][0]
+        for al, body in ((True, split.body), (False, split.orelse)):
+            asg = [a for a in body if isinstance(a, ast.AugAssign) and isinstance(a.op, ast.LShift)]
+            if len(asg) != 1 or not isinstance(asg[0].value, ast.BoolOp) or len(asg[0].value.values) != 2:
+                raise AnalysisError(f"{fn}: combining assignment of the active_low={al} branch not recognised")
+            v = asg[0].value
+            ops = [src(x) for x in v.values]
+            helper = "self._reset.active_low_signal()" if al else "self._reset.active_high_signal()"
+            run.ob(helper in ops and "expr()" in ops, f"SequentialContext.{fn}", file=sc.rel, line=asg[0].lineno, detail=f"operands[active_low={al}]",
+                   expected=f"{helper} combined with expr()", found=str(ops))
+            bop = (lambda a, b: a and b) if isinstance(v.op, ast.And) else (lambda a, b: a or b)
+            for p_asserted in (False, True):
+                for e_asserted in (False, True):
+                    # level of a signal that is (not) asserted under polarity al
+                    lvl = lambda asserted: (not asserted) if al else asserted
+                    combined_level = bool(bop(lvl(p_asserted), lvl(e_asserted)))
+                    combined_asserted = (not combined_level) if al else combined_level
+                    exp = bool(combine(p_asserted, e_asserted))
+                    run.ob(combined_asserted == exp, f"SequentialContext.{fn}", file=sc.rel, line=asg[0].lineno,
+                           detail=f"active_low={al},parent={'asserted' if p_asserted else 'idle'},extra={'asserted' if e_asserted else 'idle'}",
+                           expected="asserted" if exp else "idle", found="asserted" if combined_asserted else "idle", sample=False)
+        ctor = [c for c in calls_in(f.node) if dotted(c.func) == "Reset"]
+        kw = {k.arg: src(k.value) for c in ctor for k in c.keywords}
+        ok = len(ctor) == 1 and kw.get("active_low") == "active_low" and kw.get("is_async") == "is_async"
+        run.ob(ok, f"SequentialContext.{fn}", file=sc.rel, line=f.node.lineno, detail="same-polarity", expected="Reset(combined, active_low=active_low, is_async=is_async)", found=str(kw))
+    run.end()
+
+
+def rule_instance_defaults(run):
+    run.begin(
+        "C04.g",
+        "only signals DRIVEN by a sub-entity lose their default (so they keep no second driver): the default of a parent "
+        "signal connected to an input or inout port of an instance is kept, it is still reset by its own context",
+        floor=2,
+    )
+    ctx = run.idx.mod("cohdl/_core/_context.py")
+    init = ctx.func("Entity.__init__")
+    sets = [a for a in ast.walk(init.node) if isinstance(a, ast.Assign) and isinstance(a.targets[0], ast.Attribute) and a.targets[0].attr == "_default" and isinstance(a.value, ast.Constant) and a.value.value is None]
+    if len(sets) != 1:
+        raise AnalysisError("Entity.__init__: removal of the connected actual's default not found")
+    st = sets[0]
+    # conditions on the path: the port must be an OUTPUT (is_output() true)
+    conds = []
+    cur = st
+    for anc in ctx.parents.ancestors(st):
+        if isinstance(anc, ast.If):
+            arm = "body" if any(cur is b or any(x is cur for x in ast.walk(b)) for b in anc.body) else "orelse"
+            conds.append((src(anc.test), arm))
+        if anc is init.node:
+            break
+        cur = anc
+    is_out = any((t.endswith(".is_output()") and not t.startswith("not ") and arm == "body") or (t.startswith("not ") and t.endswith(".is_output()") and arm == "orelse") for t, arm in conds)
+    run.ob(is_out, "Entity.__init__", file=ctx.rel, line=st.lineno, detail="outputs-only", expected="default removed only under port.is_output()", found=str(conds))
+    # direction predicates are mutually exclusive single comparisons
+    tq = run.idx.mod(TQ)
+    for pred, member in (("is_input", "INPUT"), ("is_output", "OUTPUT"), ("is_inout", "INOUT")):
+        fs = [g for q, g in tq.functions.items() if q.endswith(f"Direction.{pred}")]
+        if not fs:
+            continue
+        r = fs[0].node.body[-1]
+        ok = isinstance(r, ast.Return) and src(r.value).replace("==", "is") in (f"self is Port.Direction.{member}", f"self is Direction.{member}", f"self is self.{member}", f"self is type(self).{member}")
+        run.ob(ok, f"Port.Direction.{pred}", file=tq.rel, line=fs[0].node.lineno, detail="predicate", expected=f"self is Direction.{member}", found=src(r))
+    run.end()
+
+
+RULES = [rule_wrappers, rule_polarity, rule_reset_set, rule_first_state, rule_defaults, rule_combined, rule_instance_defaults]
 LEVEL = "other"
 EXPLANATION = (
     "Shape analysis of everything the reset behaviour of every design is built from: the std.sequential wrappers "
